@@ -41,7 +41,7 @@ NICE_F64 = [0.0, -0.0, 1.0, -1.0, 0.1, 1e10, 1e-7, 1.5, 3.141592653589793, 1.797
 NICE_F32 = [0.0, -0.0, 1.0, 0.1, 16777217.0, 3.4028234663852886e38, 1.401298464324817e-45, 1e-7, 65504.0, 0.3]
 
 PARSED = [b"12", b"-7", b"0x1F", b"0b101", b"1.5", b"2e3", b"1e-3f", b"5UL", b"07", b"-0", b"1.25L", b"0",
-          b"4294967296", b"-0x10", b"1E+2", b"2147483648", b"012", b"3.0f", b"10u", b"0XfF", b"-  5", b"00", b"1.", b"0.5e1"]
+          b"4294967296", b"-0x10", b"1E+2", b"2147483648", b"012", b"3.0f", b"10u", b"0XfF", b"-  5", b"00", b"1.", b"0.5e1", b"- 2.5", b"-  1e2f", b"-\t0.5"]
 
 
 def rint(r, ty):
@@ -199,7 +199,7 @@ def jtext(r, depth=3, broken=0.0):
 
     def num():
         return r.choice(["0", "1", "-1", "12", "3.5", "-2.5e3", "1e-2", "0x1f", "0b11", "7L", "8UL", "1.5f", "2e2f", "00", "-0", "123456789012", "1E5",
-                         "true", "false", "4294967295", "18446744073709551615L", "-9223372036854775808L", "0.1", "1.0e+00", "5.00000000e-01f"])
+                         "true", "false", "- 3.25", "-  7", "- 1e1f", "4294967295", "18446744073709551615L", "-9223372036854775808L", "0.1", "1.0e+00", "5.00000000e-01f"])
 
     def val(d):
         k = r.random()
